@@ -191,3 +191,14 @@ reg("C19",
                      "z0 smoothing invariant under whole-degree rotations (1-degree bins): oracle; non-integer rotations move observations across bins and are outside the clause"],
     assumptions=["x > 0, U > 0, kappa > 0, r > 0, sigma_v > 0, Gamma(mu) > 0, Gamma(1/r) > 0 for the closed form"])
 REGISTRY["C09"]["theorems"] += T("Proofs.C19", "BLDFM.C19", ["psi_eq_km_psiM", "phi_eq_km_phiC"])
+
+reg("C15",
+    T("Proofs.C15", "BLDFM.C15", ["key_complete", "solveCached_correct", "crash_keeps_inv", "truncate_keeps_inv", "cache_transparent",
+                                  "good_entry_persists", "cache_effective", "never_fatal", "truncated_is_miss", "incomplete_key_collides"])
+    + T("Proofs.C04", "BLDFM.C04", ["footprint_indep_source_values"])
+    + T("Proofs.Bridge.Tables", "BLDFM.Bridge", ["cache_cfg_table"], "bridge"),
+    kernel_groups=["Tables"],
+    partial_clauses=["SHA-256 collision freedom on the encoded argument tuples", "filesystem: os.replace is atomic; a crash leaves any PREFIX of the bytes being written",
+                     "np.load rejects every proper prefix / corrupted entry (observed exhaustively per entry in the thorough tier, not proved)"],
+    assumptions=["the solver's footprint result depends only on the determining arguments (C04 footprint_indep_source_values + halo default = max(domain))",
+                 "initial disk satisfies the invariant (every decodable entry was stored by this key scheme)"])
